@@ -6,7 +6,7 @@ VALS = {"asc": [1, 2, 3, 4], "desc": [1, 2, 3, 4], "key": [10, 11, 20, 21]}
 
 
 def execute(run, plans):
-    return split_segments(run_driver(run, "sorted", [c for p in plans for c in p]))
+    return run_plans(run, "sorted", plans)
 
 
 def mkplan(mode, ops, ordered=False):
@@ -105,6 +105,7 @@ def check(run):
     segs = execute(run, plans)
     if len(segs) != len(plans):
         raise Inconclusive("driver returned %d segments for %d plans" % (len(segs), len(plans)))
+    plans, segs = drop_crashed(plans, segs)
     conf = conformance(plans, segs, ["ret"])
     validate(run, "sorted", "SortedAbsTrace", {}, segs, CLAUSES, plans=plans)
     run.cov.update(tour=tours, conformance=conf, exhaustive=all(t["edges_covered"] == t["edges_total"] for t in tours),
@@ -119,6 +120,6 @@ def check(run):
 
 
 def replay(run, rp):
-    segs = execute(run, [rp["plan"]])
+    segs = [sg for sg in execute(run, [rp["plan"]]) if sg is not None]
     validate(run, "sorted", "SortedAbsTrace", {}, segs, CLAUSES, plans=[rp["plan"]])
     return finish(run, reexec=lambda rej: execute(run, [rej["plan"]])[0])
